@@ -71,7 +71,7 @@ macro("SHARD_OK", ["s"], "len(s.shard_info.file_infos) >= 1 and VALID_ShardInfo(
 macro("IS_DIGESTS", ["lst", "algs", "content"],
       "len(lst) == len(algs) and forall(lambda j: implies(0 <= j and j < len(algs), lst[j] == HEX(algs[j], content, FLEN(content))))")
 
-contract("sedpack/io/shard/shard_writer_base.py", "ShardWriterBase.close", cls="Writer", sig=["self"],
+contract("sedpack/io/shard/shard_writer_base.py", "ShardWriterBase.close", cls="ShardWriterBase", sig=["self"],
     props=["C06", "C04", "C10"], assumed=True, verify=False,
     requires=["not self.closed"],
     modifies=["Writer.closed@self", "ghost:fs"],
